@@ -1,7 +1,7 @@
 SPECIFICATION Spec
 CONSTANTS Tiny = TRUE
  Walk = FALSE
- MaxSteps = 2
+ MaxSteps = 1
  EmitOut = FALSE
  Bound = 0
 INVARIANTS RoundTrip Frame FormsAgree PathsDisjoint CopyRefines CopyExact
